@@ -8,13 +8,14 @@
 package spg
 
 //@ func randomUint32
+//@   modifies pos
 //@   raises  [C09] rng:  rngfail(pos)
 //@   ensures [C01,C09] word: res == word(tape, old(pos)) && pos == old(pos)+4
 //@   ensures [C09] filled: !rngfail(old(pos))
 
 //@ func randomUint32n
 //@   panics  [C13] zero: n < 1
-//@   modifies ctr
+//@   modifies pos, ctr
 //@   loop 1 invariant [C01] aligned:  pos >= old(pos)+4 && (pos-old(pos))%4 == 0
 //@   loop 1 invariant [C01] current:  v == word(tape, pos-4)
 //@   loop 1 invariant [C01] rejected: forall(int(q), old(pos) <= q && q < pos-4 && (q-old(pos))%4 == 0 ==> !acc(n, word(tape, q)))
@@ -25,3 +26,39 @@ package spg
 //@   ensures [C01,C02,C04,C09] draw:  Draw(tape, old(pos), pos, n, res)
 //@   ensures [C01,C02,C03,C04,C13] range: 0 <= res && res < n
 //@   ensures [C02,C04] ghost.named: res == oracle(old(ctr), n) && ctr == old(ctr)+1
+
+// ---------------------------------------------------------------- token.go
+
+//@ func Tokenize
+//@   ensures [C11,C12] entropy:   res.Entropy == entropy
+//@   ensures [C12] err-empty:     len(ti) == 0 ==> err != nil
+//@   ensures [C12] err-kind:      len(ti) > 0 && ti[0] > 3 ==> err != nil
+//@   ensures [C12] err-truncated: len(ti) > 0 && ti[0] == 3 && len(ti)%2 == 0 ==> err != nil
+//@   ensures [C12] err-short1:    len(ti) > 0 && (ti[0] == 1 || ti[0] == 2) && psum(arr(ti), off(ti)+1, 1, len(ti)-1) > clen(pw) ==> err != nil
+//@   ensures [C12] err-short3:    len(ti) > 0 && ti[0] == 3 && len(ti)%2 == 1 && psum(arr(ti), off(ti)+1, 2, (len(ti)-1)/2) > clen(pw) ==> err != nil
+//@   ensures [C11,C12] kind0:     err == nil && ti[0] == 0 ==> len(res.tokens) == clen(pw) &&
+//@        forall(int(j), 0 <= j && j < clen(pw) ==> res.tokens[j].value == at(pw, j) && res.tokens[j].tType == AtomType)
+//@   ensures [C11,C12] kind1:     err == nil && ti[0] == 1 ==> len(res.tokens) == len(ti)-1 &&
+//@        psum(arr(ti), off(ti)+1, 1, len(ti)-1) <= clen(pw) &&
+//@        forall(int(j), 0 <= j && j < len(ti)-1 ==> res.tokens[j].tType == AtomType &&
+//@               res.tokens[j].value == seg(pw, psum(arr(ti), off(ti)+1, 1, j), psum(arr(ti), off(ti)+1, 1, j+1)))
+//@   ensures [C11,C12] kind2:     err == nil && ti[0] == 2 ==> len(res.tokens) == len(ti)-1 &&
+//@        psum(arr(ti), off(ti)+1, 1, len(ti)-1) <= clen(pw) &&
+//@        forall(int(j), 0 <= j && j < len(ti)-1 ==> res.tokens[j].tType == ite(j%2 == 1, SeparatorType, AtomType) &&
+//@               res.tokens[j].value == seg(pw, psum(arr(ti), off(ti)+1, 1, j), psum(arr(ti), off(ti)+1, 1, j+1)))
+//@   ensures [C11,C12] kind3:     err == nil && ti[0] == 3 ==> len(ti)%2 == 1 && len(res.tokens) == (len(ti)-1)/2 &&
+//@        psum(arr(ti), off(ti)+1, 2, (len(ti)-1)/2) <= clen(pw) &&
+//@        forall(int(j), 0 <= j && j < (len(ti)-1)/2 ==> res.tokens[j].tType == ti[2+2*j] &&
+//@               res.tokens[j].value == seg(pw, psum(arr(ti), off(ti)+1, 2, j), psum(arr(ti), off(ti)+1, 2, j+1)))
+//@   ensures [C12] kinds:         err == nil ==> len(ti) > 0 && ti[0] <= 3
+//@   loop 1 invariant [C12] chars: len(tokens) == it && forall(int(j), 0 <= j && j < it ==> tokens[j].value == at(pw, j) && tokens[j].tType == AtomType)
+//@   loop 2 invariant [C12] pos:   0 <= prevPos && prevPos <= clen(pw) && prevPos == psum(arr(ti), off(ti)+1, 1, i)
+//@   loop 2 invariant [C12] done:  forall(int(j), 0 <= j && j < i ==> tokens[j].tType == AtomType &&
+//@               tokens[j].value == seg(pw, psum(arr(ti), off(ti)+1, 1, j), psum(arr(ti), off(ti)+1, 1, j+1)))
+//@   loop 3 invariant [C12] pos:   0 <= prevPos && prevPos <= clen(pw) && prevPos == psum(arr(ti), off(ti)+1, 1, i)
+//@   loop 3 invariant [C12] done:  forall(int(j), 0 <= j && j < i ==> tokens[j].tType == ite(j%2 == 1, SeparatorType, AtomType) &&
+//@               tokens[j].value == seg(pw, psum(arr(ti), off(ti)+1, 1, j), psum(arr(ti), off(ti)+1, 1, j+1)))
+//@   loop 4 invariant [C12] idx:   i >= 1 && i%2 == 1 && i <= len(ti)
+//@   loop 4 invariant [C12] pos:   0 <= prevPos && prevPos <= clen(pw) && prevPos == psum(arr(ti), off(ti)+1, 2, (i-1)/2)
+//@   loop 4 invariant [C12] done:  forall(int(j), 0 <= j && j < (i-1)/2 ==> tokens[j].tType == ti[2+2*j] &&
+//@               tokens[j].value == seg(pw, psum(arr(ti), off(ti)+1, 2, j), psum(arr(ti), off(ti)+1, 2, j+1)))
